@@ -382,7 +382,27 @@ pub fn s_long_auto(thorough: bool) -> Space {
             cases.push(auto_case(s));
         }
     }
-    Space { name: "S_long_auto".into(), describe: format!("automatic mode on ctr content of each alphabet for every length 1..={}, and one foreign character (alnum-only / other) at every position of a {}-character digit or alphanumeric string", lens.len(), base_len), cases, exhaustive: true }
+    // every byte value at chosen positions (block starts, block ends, the scalar tail) of digit and letter strings
+    // of several lengths: a classifier that works on chunks, masks bits or uses a table has to be right for all 256
+    for &len in &[8usize, 9, 16, 17, 24, 31, 32, 33, 64, 65, 120] {
+        let mut pos: Vec<usize> = vec![0, 1, 3, 7, 8, 15, 16, len / 2, len.saturating_sub(9), len.saturating_sub(8), len - 2, len - 1];
+        pos.retain(|&p| p < len);
+        pos.sort();
+        pos.dedup();
+        for p in pos {
+            for b in 0..=255u8 {
+                for m in 0..2usize {
+                    if !thorough && m == 1 && len > 33 {
+                        continue;
+                    }
+                    let mut s = spaces::content(Family::Ctr, m, len);
+                    s[p] = b;
+                    cases.push(auto_case(s));
+                }
+            }
+        }
+    }
+    Space { name: "S_long_auto".into(), describe: format!("automatic mode on ctr content of each alphabet for every length 1..={}, one foreign character (alnum-only / other) at every position of a {}-character digit or alphanumeric string, and every byte value at 12 chosen positions of digit / letter strings of lengths 8..120", lens.len(), base_len), cases, exhaustive: true }
 }
 
 /// S_mixed_auto: strings made of a run of one class followed by a run of another (digits then alphanumeric
